@@ -36,6 +36,12 @@ def init_sc3(mode):
 
 def _worker_init(mode, modname):
     sys.setrecursionlimit(10000)
+    try:
+        import faulthandler
+        import signal
+        faulthandler.register(signal.SIGUSR1, all_threads=True)      # kill -USR1 <worker> dumps its stacks to stderr
+    except Exception:
+        pass
     init_sc3(mode)
     importlib.import_module(modname)
 
